@@ -81,6 +81,10 @@ fn one_case(out: &mut Out, r: &mut Rng, len: usize) {
     let avails = [
         Size { width: AvailableSpace::Definite(200.0), height: AvailableSpace::Definite(100.0) },
         Size { width: AvailableSpace::MaxContent, height: AvailableSpace::MaxContent },
+        // a collapsed viewport, a fractional one and a min-content one: the repeat-pass clause must hold for every value
+        Size { width: AvailableSpace::Definite(0.0), height: AvailableSpace::MaxContent },
+        Size { width: AvailableSpace::Definite(0.5), height: AvailableSpace::Definite(0.0) },
+        Size { width: AvailableSpace::MinContent, height: AvailableSpace::Definite(1e6) },
     ];
     let mut last_pass: Option<(usize, usize)> = None;
     let mut nontrivial = false;
@@ -250,7 +254,7 @@ fn one_case(out: &mut Out, r: &mut Rng, len: usize) {
                     Some(lp) if r.chance(1, 2) && h.alive[lp.0] && h.parent[lp.0].is_none() => lp,
                     _ => {
                         let det = h.detached();
-                        (*r.pick(&det), r.below(2))
+                        (*r.pick(&det), r.below(avails.len()))
                     }
                 };
                 let repeat = last_pass == Some((root, ai));
